@@ -1,5 +1,6 @@
 """C12 — ESS = M*N/tau with Geyer's monotone sequence, whichever autocovariance path runs (DESIGN.md section 4/C12, Appendix A.C12)."""
 from ..speclib import *
+import re
 from .C11 import roles, wv_forms
 
 TITLE = 'ESS = (half-chains x length)/tau, tau = -1 + 2 sum of Geyer\'s initial positive monotone pair sums of rho_t = 1 - (W - mean acov_t)/var+; both autocovariance paths'
@@ -8,7 +9,6 @@ EXPLANATION = ('Value-flow normal forms and loop summaries of the ESS helper of 
                'P_k <= 0, running-minimum clamp, tau = -1 + 2 sum P_k, ESS = m h / tau; path switch at 100 rows; brute force: centred, (1/h) sum_{t<h-lag} x_t x_{t+lag}; '
                'FFT: centred, zero-padded to a power of two >= 2h-1 (loop summary of the doubling), |X|^2, inverse, real part, first h lags, scale 1/(n_padded h); '
                'lag-0 consistency of the normaliser with W. Equality of the two paths up to rounding (the convolution theorem) and the AR(1)/i.i.d. asymptotics are not decided.')
-FLOORS = {'obligations': 24}   # counted on the reference tree; fewer instantiated obligations is reported, never passed silently
 TECHNIQUE = 'value-flow normal form + loop summaries (exit conditions, carried minima, doubling loop) vs specification table'
 R3 = lambda s: {s: 3}
 
@@ -54,10 +54,17 @@ def run(ctx):
            why='rho_t is formed from the same W and var+ as R-hat')
     be = bodies['ess']
     callees = [k for k in local_callees(ctx, be)]
-    if len(callees) != 1:
-        ctx.unknown('C12.ess', A, 'autocov', why='expected the ESS helper to call exactly one crate-local autocovariance function (found %s)' % callees, sp=be['sp'])
+    # the autocovariance function by role: the crate-local callee mapping a 2-D view (one chain) to an owned 2-D array; any other
+    # private helper of the ESS function (e.g. an extracted pair-sum routine) is inlined by the evaluation
+    def is_acov(k):
+        cb = body_of(ctx, k)
+        sig = (cb or {}).get('sig') or ''
+        return cb is not None and len(cb.get('params', [])) == 1 and re.search(r'ViewRepr<&(\'\w+ )?f32>, ndarray::Dim<\[usize; 2\]>>\) -> ndarray::ArrayBase<ndarray::OwnedRepr<f32>, ndarray::Dim<\[usize; 2\]>>', sig) is not None
+    ac = [k for k in callees if is_acov(k)]
+    if len(ac) != 1:
+        ctx.unknown('C12.ess', A, 'autocov', why='expected the ESS helper to call exactly one crate-local autocovariance function (2-D view -> 2-D array); found %s among %s' % (ac, callees), sp=be['sp'])
         return
-    ackey = callees[0]
+    ackey = ac[0]
     ess(ctx, A, be, ackey)
     autocov(ctx, ackey, bodies)
 
@@ -170,19 +177,24 @@ def bf(ctx, b):
         ctx.unknown('C12.bf', A, 'loops', why='expected column loop and lag loop (found %d, %d)' % (len(outer), len(inner)), sp=sp)
         return
     lo, li = outer[0], inner[0]
-    col, lag = lo.var, li.var
-    ok_ = [k for k in li.lh]
+    col = lo.var
+    # the lag index: the loop variable of `for lag in 0..n`, or the counter of `column.iter_mut().enumerate()`
+    lag = li.var
+    ok_ = carried_keys(li)
     cdat = T.sub(T.app('column', data, col), T.app('mean', T.app('column', data, col)))
     t = S('k#t')
     val = T.div(T.app('sum', mk_comp(T.sub(n, lag), t, T.mul(index_term(cdat, t), index_term(cdat, T.add(t, lag))))), n)
-    okshape = lo.n is T.app('len_of', T.app('zeros', T.tup(n, dcols)), AX(1)) and li.n is n and isinstance(lo.elem, Tup) and ev.t(lo.elem.items[0]) is col
+    # all n lags: `0..n`, or one per entry of the output column (the output is zeros((n, d)) and element updates keep its shape)
+    outk = [k for k in carried_keys(lo)]
+    lag_counts = [n] + ([T.app('len', index_term(lo.lh[outk[0]], T.app('axis', AX(1), col)))] if len(outk) == 1 and lo.init[outk[0]] is T.app('zeros', T.tup(n, dcols)) else [])
+    okshape = lo.n is T.app('len_of', T.app('zeros', T.tup(n, dcols)), AX(1)) and any(li.n is x for x in lag_counts) and isinstance(lo.elem, Tup) and ev.t(lo.elem.items[0]) is col
     ctx.check('C12.bf.loops', A, 'loops', okshape and len(ok_) == 1, expected='every column of an (n, d) zero array, every lag 0..n', found='cols n=%s, lags n=%s' % (show(lo.n), show(li.n)), sp=sp, why='one autocovariance series per parameter, all h lags')
     if len(ok_) != 1:
         return
     k = ok_[0]
     exp = T.app('upd', li.lh[k], T.app('axis', AX(1), col), T.app('upd', index_term(li.lh[k], T.app('axis', AX(1), col)), lag, val))
     ctx.eq('C12.bf.value', A, 'value', li.next[k], exp, sp=li.sp, why='out[lag, col] = (1/n) sum_{t < n-lag} c_t c_{t+lag}, c the mean-centred column (centre, sum, normalise by the chain length)')
-    ctx.eq('C12.bf.ret', A, 'return', ev.ret_term, lo.lx[[x for x in lo.lx][0]] if lo.lx else T.UNIT, sp=sp, why='returns the filled array')
+    ctx.eq('C12.bf.ret', A, 'return', ev.ret_term, lo.lx[outk[0]] if len(outk) == 1 else T.UNIT, sp=sp, why='returns the filled array')
 
 
 def fft(ctx, b):
